@@ -74,3 +74,14 @@ package crypto
 // only from a run that answered true (no shortcut keyed by the witness alone).
 //@ func VerifyRequestSignaturesN3$1
 //@   ensures [nil_only_if_script_ran_true_for_this_data] err == nil ==> scriptRunTrue()
+
+// ---- C24 (object authentication): the verdict on a session token is cached by a hash of
+// the token. The hash must cover the whole token as transmitted - body, signature and (V2)
+// delegation origin - i.e. its Marshal() bytes: a key over a part of the token would let a
+// token that differs only in the uncovered part inherit the cached verdict without being
+// verified.
+//@ fileprops C24
+//@ callrule c24_token_cache_key_covers_the_whole_token in AuthenticateObject
+//@   callee sha256.Sum256
+//@   pureeffect
+//@   requires [cache_key_is_the_hash_of_the_marshalled_token] resultOf(a0, "*).Marshal")
